@@ -138,7 +138,7 @@ def _case(draw, tier):
     if flat_second and any(len(set(r["kids"])) != len(r["kids"]) for r in recs):
         # how a collection that lists one element twice is counted is not the subject here (C16)
         flat_second = False
-    return {"flat_second": flat_second, "abandon_first": abandon_first, "ents": recs, "doms": doms, "vars": vars_, "tree": root, "dom_kind": "list", "nv": nv, "extra": extra,
+    return {"abandoned_stays_open": bool(abandon_first) and chance(draw, 1, 3), "flat_second": flat_second, "abandon_first": abandon_first, "ents": recs, "doms": doms, "vars": vars_, "tree": root, "dom_kind": "list", "nv": nv, "extra": extra,
             "alt_first": draw(st.booleans()), "sibling_alts": draw(st.booleans()),
             "quant": draw(st.sampled_from(["an", "infer"])), "split_base": draw(st.booleans())}
 
@@ -297,7 +297,10 @@ def _evaluate(case, objs, nodes, times=1):
         for _ in range(case["abandon_first"]):
             if next(it_, _END) is _END:
                 break
-        it_.close()
+        if case.get("abandoned_stays_open"):
+            runs_keep = [it_]       # neither closed nor collected while the next evaluations run
+        else:
+            it_.close()
     for _ in range(times):
         # the instances inferred by the previous evaluation are dropped from the registry first (conftest idiom): the
         # target variable has no domain, so they would otherwise be candidates for it
@@ -305,6 +308,8 @@ def _evaluate(case, objs, nodes, times=1):
             c.clear()
         Variable._cache_.clear()
         runs.append(list(query.evaluate()))
+    if case.get("abandon_first") and case.get("abandoned_stays_open"):
+        it_.close()
     return runs
 
 
@@ -386,6 +391,8 @@ def check(case) -> Outcome:
         feats.append("branch_joins_extra_variable")
         if case.get("abandon_first"):
             feats.append("abandoned_first_and_branch_joins_extra_variable")      # KF-55
+    if case.get("abandoned_stays_open"):
+        feats.append("abandoned_iterator_stays_open")
     if case.get("abandon_first"):
         feats.append("after_abandoned_evaluation")
     classes = list(feats) + [f"nodes{min(len(nodes), 7)}", f"vars{nv}", case["quant"],
